@@ -95,6 +95,24 @@ def handle5 (op : String) (a obs : List String) : Option Verdict :=
       ("none_delivered_twice", field obs "dup" == "0"),
       ("none_invented", field obs "unknown" == "0")]
     pure (model, prop)
+  | "late.preamble" =>
+    -- two streams whose preamble completes late and two healthy ones: in a driver without timers
+    -- (`Generated.DRIVER_TIMER_FREE`) a preamble task ends only with its preamble or an I/O error
+    -- of its stream, so the pipeline delivers all of them (`Props/C08`)
+    let run (cap : Nat) (rf : Bool) : Nat :=
+      let s := Handoff.run (Handoff.init cap [] rf) [.peerOpen 0, .peerOpen 1]
+      (Handoff.drain (Handoff.work s + 1) s).delivered.length
+    let du := run Generated.CAP_READY_UNI_WT Generated.HANDOFF_RESERVE_FIRST_UNI
+    let db := run Generated.CAP_READY_BI_WT Generated.HANDOFF_RESERVE_FIRST_BI
+    let allU := s!"uni={hex [0x48, 0x55]},{hex [0x4c, 0x55]}"
+    let allB := s!"bi={hex [0x48, 0x42]},{hex [0x4c, 0x42]}"
+    let model :=
+      if Generated.DRIVER_TIMER_FREE && du == 2 && db == 2 then [allU, allB, "late_write=ok"] else obs
+    let prop := check [("no_trap", !isTrap obs),
+      ("late_unidirectional_stream_delivered_with_its_bytes", s!"uni={field obs "uni"}" == allU),
+      ("late_bidirectional_stream_delivered_with_its_bytes", s!"bi={field obs "bi"}" == allB),
+      ("late_stream_not_refused", field obs "late_write" == "ok")]
+    some (model, prop)
   | "foreign" => do
     let kinds := splitList (get a 1)
     let idx := (List.range kinds.length).zip kinds
